@@ -9,5 +9,5 @@ done
 rm -f /tmp/sany_$$.log
 cd ..
 mkdir -p .work evidence
-PYTHONPATH=/repo:/verif/harness /venv/bin/python -W ignore harness/smoke.py
+PYTHONPATH=/repo:$(pwd)/harness /venv/bin/python -W ignore harness/smoke.py
 echo "setup ok"
